@@ -3,6 +3,8 @@ import EmsModel.Core.MeshMask
 import EmsModel.Core.Proto
 import EmsModel.Core.NpMask
 import EmsModel.Gen.Pipelines
+import EmsModel.Core.UgridSrc
+import EmsModel.Gen.UgridSrc
 /-! Line-protocol driver for C07.
 
 arrays: `<ny>x<nx> <bits>` (C order); printed as `<ny>x<nx>:<bits>` (`-` for no bits)
@@ -25,7 +27,13 @@ mesh: `n=<nNodes>;f=<a.b.c/d.e.f>;e=-` or `e=<nEdges>:<a.b.c/…>` (face_edge ro
 `ugridmask-current <mesh> <truth> <hits> <buffer>`  → mesh mask numbered in hit order (pinned tree, F1)
 `kept <mesh> <truth> <hits> <buffer>`   → kept face list
 `propcheck-blur <shape> <bits> <size>`  → `OK`/`FAIL`: conclusion of blur_spec by brute force
+source-level mesh (B5, `Gen/UgridSrc.lean`): as `mesh`, rows of equal width with `_` for a masked entry (`f=0.1.2._/1.3.2._`)
+`bufferfaces-src <srcmesh> <faces>`     → face list | `ERR`, from the term GENERATED FROM THE SOURCE of `buffer_faces`
+`maskfrom-src <srcmesh> <faces>`        → mesh mask | `ERR`, from the program GENERATED FROM THE SOURCE of `mask_from_face_indexes`
+`ugridmask-src <srcmesh> <truth> <hits> <buffer>` → mesh mask | `ERR`, from the program GENERATED FROM THE SOURCE of `UGrid.make_clip_mask`
 `propcheck-renumber <mesh> <truth> <hits> <buffer>` / `propcheck-renumber-current …` → `OK`/`FAIL`
+`propcheck-loose <mesh> <truth> <hits> <buffer>` → `OK loose-nodes=<k> loose-edges=<j>` / `FAIL …`: the rows of the node / edge table that
+                                          no face uses (counted from the mesh) are all masked in the demanded mask, which is numbered in order
 -/
 open Ems Ems.Clip Ems.Proto
 
@@ -108,6 +116,51 @@ def propRenumber (k : MeshMask) : Bool :=
 
 def okfail (b : Bool) : String := if b then "OK" else "FAIL"
 
+/-- strengthening round 6 (loose rows): rows of the node / edge table used by no face, and the decidable form of
+`C07.loose_node_never_kept` / `loose_edge_never_kept` + contiguous numbering on one mask -/
+def propLoose (m : FaceMesh) (k : MeshMask) : String :=
+  let usedN := m.faces.flatten
+  let usedE := m.faceEdges.flatten
+  let looseN := (List.range m.nNodes).filter fun n => !usedN.contains n
+  let looseE := match m.nEdges with
+    | none => []
+    | some ne => (List.range ne).filter fun e => !usedE.contains e
+  let masked (t : List (Option Nat)) (e : Nat) : Bool := t[e]? == some none
+  let ok := looseN.all (masked k.newNode) &&
+    (match k.newEdge with | none => looseE.isEmpty | some t => looseE.all (masked t)) && propRenumber k
+  s!"{okfail ok} loose-nodes={looseN.length} loose-edges={looseE.length}"
+
+/-! source-level ops (B5): the terms of `Gen/UgridSrc.lean` evaluated on masked tables -/
+
+def parseMRows? (s : String) : Option UgridSrc.MTable :=
+  if s == "" || s == "-" then some [] else
+  allSome ((s.splitOn "/").map fun r =>
+    if r == "" then some [] else
+    allSome ((r.splitOn ".").map fun w => if w == "_" then some none else (parseNat? w).map some))
+
+/-- (face_node table, face_edge table, node count, edge count if there is an edge dimension) -/
+def parseSrcMesh? (s : String) : Option (UgridSrc.MTable × UgridSrc.MTable × Nat × Option Nat) :=
+  match s.splitOn ";" with
+  | [n, f, e] =>
+    match n.splitOn "=", f.splitOn "=", e.splitOn "=" with
+    | ["n", n], ["f", f], ["e", e] => do
+        let n ← parseNat? n
+        let f ← parseMRows? f
+        if e == "-" then some (f, [], n, none)
+        else match e.splitOn ":" with
+          | [ne, fe] => do
+              let ne ← parseNat? ne
+              let fe ← parseMRows? fe
+              if fe.length ≠ f.length then none else some (f, fe, n, some ne)
+          | _ => none
+    | _, _, _ => none
+  | _ => none
+
+def showSrcMask (r : Option (List UgridSrc.UOutVar)) : String :=
+  match r.bind UgridSrc.toMeshMask with
+  | some k => showMeshMask k
+  | none => "ERR"
+
 def step (line : String) : String :=
   match words line with
   | ["blur", sh, bits, size] =>
@@ -174,6 +227,25 @@ def step (line : String) : String :=
     match parseMesh? mesh, parseNatList? fs with
     | some m, some F => showMeshMask (maskFromFaceIndexes m F)
     | _, _ => "BAD"
+  | ["bufferfaces-src", mesh, fs] =>
+    match parseSrcMesh? mesh, parseNatList? fs with
+    | some (t, e, n, ne), some F =>
+      match UgridSrc.eval { UgridSrc.meshEnv t e n ne [] 0 with arg := .list F } Gen.UgridSrc.bufferFaces with
+      | .list l => showNatList l
+      | _ => "ERR"
+    | _, _ => "BAD"
+  | ["maskfrom-src", mesh, fs] =>
+    match parseSrcMesh? mesh, parseNatList? fs with
+    | some (t, e, n, ne), some F =>
+      showSrcMask (UgridSrc.evalProg { UgridSrc.meshEnv t e n ne [] 0 with arg := .list F } Gen.UgridSrc.maskFromFaceIndexes)
+    | _, _ => "BAD"
+  | ["ugridmask-src", mesh, truth, hits, buffer] =>
+    match parseSrcMesh? mesh, parseInt? buffer with
+    | some (t, e, n, ne), some b =>
+      match parseHits? truth hits t.length with
+      | some h => showSrcMask (UgridSrc.evalProg (UgridSrc.meshEnv t e n ne h b) Gen.UgridSrc.makeClipMask)
+      | none => "BAD"
+    | _, _ => "BAD"
   | [op, mesh, truth, hits, buffer] =>
     match parseMesh? mesh, parseInt? buffer with
     | some m, some b =>
@@ -184,6 +256,7 @@ def step (line : String) : String :=
         else if op == "kept" then showNatList (keptFaces m h b)
         else if op == "propcheck-renumber" then okfail (propRenumber (ugridClipMask m h b))
         else if op == "propcheck-renumber-current" then okfail (propRenumber (ugridClipMaskCurrent m h b))
+        else if op == "propcheck-loose" then propLoose m (ugridClipMask m h b)
         else "BAD"
       | none => "BAD"
     | _, _ => "BAD"
